@@ -650,6 +650,27 @@ fn handle(w: &mut World, cap: &mut Capture, line: &str) -> String {
             let diag = if nl > 1 && status != 101 { format!("{}+{}lines", diag, nl) } else { diag };
             format!("(run out={} status={} diag={})", hex_encode(&outp.stdout), status, diag)
         }
+        "ROUNDTRIP" => {
+            let i: i64 = words[1].parse().unwrap();
+            let text = hex_str(words[2]);
+            let r = w.insts.get_mut(&i).unwrap().eval(text.chars());
+            let out = match r {
+                Ok(Some(v)) => {
+                    let t = format!("{}", v);
+                    let quoted = format!("(quote {})", t);
+                    let r2 = w.insts.get_mut(&i).unwrap().eval(quoted.chars());
+                    let saved = std::mem::take(&mut w.vecs);
+                    let a = show_value(w, &v, 0);
+                    w.vecs.clear();
+                    let b = match &r2 { Ok(Some(v2)) => show_value(w, v2, 0), other => show_outcome(w, other) };
+                    w.vecs = saved;
+                    format!("(rt {} | {} | {})", hexs(&t), a, b)
+                }
+                other => show_outcome(w, &other),
+            };
+            take_side(cap);
+            out
+        }
         "BRACKET" => show_bool(ruschm::repl::verif_check_bracket_closed(&hex_str(words[1]))),
         other => panic!("bad line {}", other),
     }
